@@ -112,7 +112,7 @@ def run_update_projects(rep, tier, seed, focus, model_ok=True, effort=1, legacy_
             legacy = False
         if i < 0:
             spec = scripted[i0]
-            legacy = False
+            legacy = spec["legacy"]
             rep.count("scripted-projects")
         else:
             spec = rwgen.gen_project(r, impl, legacy=legacy, allow_dup=(focus == "outside"), force=force, max_files=2 if force else 5, tree=True)
